@@ -1,7 +1,7 @@
 /* C03 driver.  Two kinds of cases (first line):
  *   GATE                     real recv_cb / data_read / srpc_iterate / proto / srpc_getdata, own handler (no device
  *                            handler runs): observes the size-gate verdict only.
- *   CFG devcfg fwupd nrel (gpio ch flags chflags)* nrs (up down)* nin (gpio type flags relay_gpio channel atcap)*
+ *   CFG devcfg fwupd nrel (gpio ch flags chflags)* nrs (up down)* nin (gpio type flags relay_gpio channel atcap)* [rsflags]
  *                            whole device (devsim.h): boots that board, connects, registers (REGOK 120), then events.
  *                            devcfg only routes the case to the binary built with RETREIVE_CHANNEL_CONFIG; fwupd=1 sets
  *                            cfg.FirmwareUpdate so that the device asks for a firmware URL after registration.
@@ -114,7 +114,7 @@ static void diff(const struct snap *a, const struct snap *b, int gpio_only) {
 }
 
 static void timers(const char *tag, int with_target) {
-  for (int ch = 0; ch < 16; ch++) {
+  for (int ch = 0; ch < 255; ch++) {
     TTimerState_ExtendedValue st; supla_esp_countdown_get_state((uint8)ch, &st);
     if (st.RemainingTimeMs > 0) { if (with_target) vout("%s %d %u %d", tag, ch, st.RemainingTimeMs, (int)st.TargetValue[0]); else vout("%s %d %u", tag, ch, st.RemainingTimeMs); }
   }
@@ -172,6 +172,7 @@ static void run_case(int n, char **lines) {
         v_board.input[r].gpio = (int)f[o]; v_board.input[r].type = (int)f[o + 1]; v_board.input[r].flags = (int)f[o + 2];
         v_board.input[r].relay_gpio = (int)f[o + 3]; v_board.input[r].channel = (int)f[o + 4]; v_board.input[r].at_cap = (unsigned)f[o + 5];
         v_board.ninput = r + 1; } }
+      if (o < nf) v_board.rs_channel_flags = (unsigned)f[o++];      /* optional trailing integer: channel flags of the shutter channels */
     }
     ds_log_gpio = 0; ds_log_wire = 0; ds_log_conn = 0; ds_log_restart = 0; ds_stop_on_restart = 1;
     ds_boot(1);
